@@ -7,6 +7,7 @@ package main
 import (
 	"bytes"
 	"encoding/binary"
+	"fmt"
 
 	"github.com/piotrnar/gocoin/client/common"
 	"github.com/piotrnar/gocoin/lib/btc"
@@ -307,29 +308,79 @@ func (x *Gen) Structured(cmd string) Case {
 		hash := btc.NewSha2Hash(hdr[:80])
 		txs := blockTxs(e.Blocks[104])
 		nonce := g.U64()
-		want := txs[1+g.Intn(len(txs)-1)]
-		var th btc.Uint256
-		th.Calc(want)
-		sid := shortID(hdr, nonce, th.Hash[:])
-		cm := cmpctMsg(hdr, nonce, vint(1), [][]byte{sid}, vint(1), []prefilled{{vint(0), txs[0]}})
-		var body []byte
-		switch g.Intn(6) {
-		case 0: // nothing supplied
-		case 1:
-			body = want[:g.Intn(len(want))]
-		case 2:
-			body = txs[1+g.Intn(len(txs)-1)]
-		case 3:
-			body = cat(want, want)
-		default:
-			body = want
+		// the compact block leaves k transactions unresolved (k short ids the mempool does not know), the
+		// coinbase - and sometimes one more transaction - prefilled; the collector then waits for k
+		// transactions in a blocktxn message
+		pool := append([][]byte{}, txs[1:]...)
+		for i := len(pool) - 1; i > 0; i-- {
+			j := g.Intn(i + 1)
+			pool[i], pool[j] = pool[j], pool[i]
 		}
-		pl = cat(hash.Hash[:], x.countSmall(1), body)
-		if g.Chance(1, 10) {
+		k := g.Pick(1, 1, 2, 2, 3, 3, 4)
+		if k > len(pool) {
+			k = len(pool)
+		}
+		want := pool[:k]
+		var sids [][]byte
+		for _, t := range want {
+			var th btc.Uint256
+			th.Calc(t)
+			sids = append(sids, shortID(hdr, nonce, th.Hash[:]))
+		}
+		pf := []prefilled{{vint(0), txs[0]}}
+		if k < len(pool) && g.Chance(1, 3) {
+			// a second prefilled transaction somewhere among the short ids (differential index)
+			pf = append(pf, prefilled{vint(uint64(g.Intn(k + 1))), pool[k]})
+		}
+		cm := cmpctMsg(hdr, nonce, vint(uint64(k)), sids, vint(uint64(len(pf))), pf)
+		// what the peer supplies
+		sup := append([][]byte{}, want...)
+		shape := g.Intn(12)
+		switch shape {
+		case 0: // nothing
+			sup = nil
+		case 1: // the last one cut short
+			t := sup[len(sup)-1]
+			sup[len(sup)-1] = t[:g.Intn(len(t))]
+		case 2: // one missing
+			i := g.Intn(len(sup))
+			sup = append(sup[:i:i], sup[i+1:]...)
+		case 3: // the right number, but one of them REPEATED in the place of another
+			if k >= 2 {
+				i := g.Intn(k)
+				j := (i + 1 + g.Intn(k-1)) % k
+				sup[j] = sup[i]
+			} else {
+				sup = append(sup, sup[0])
+			}
+		case 4: // all k the same transaction
+			for i := range sup {
+				sup[i] = want[0]
+			}
+		case 5: // complete, plus a repeat
+			sup = append(sup, sup[g.Intn(len(sup))])
+		case 6: // a transaction the compact block did not ask for, somewhere
+			other := txs[0]
+			if k < len(pool) {
+				other = pool[len(pool)-1]
+			}
+			i := g.Intn(len(sup) + 1)
+			sup = append(sup[:i:i], append([][]byte{other}, sup[i:]...)...)
+		case 7: // reversed order
+			for i, j := 0, len(sup)-1; i < j; i, j = i+1, j-1 {
+				sup[i], sup[j] = sup[j], sup[i]
+			}
+		default: // exactly what was asked for
+		}
+		x.r.Hit(fmt.Sprintf("blocktxn:missing=%d", k))
+		x.r.Hit("blocktxn:supplied=" + []string{"nothing", "last-cut", "one-missing", "one-repeated-for-another", "all-the-same", "complete+repeat",
+			"unrequested-tx", "reversed", "exact", "exact", "exact", "exact"}[shape])
+		pl = cat(hash.Hash[:], x.countSmall(len(sup)), cat(sup...))
+		if g.Chance(1, 12) {
 			pl = pl[:g.Intn(len(pl)+1)]
 		}
 		c := Case{Cmd: cmd, Pl: H(pl), Pre: pre, Note: "gen", Seq: []Msg{{"cmpctblock", H(cm)}}}
-		if g.Chance(1, 6) {
+		if g.Chance(1, 8) {
 			c.Seq = nil
 		}
 		return c
